@@ -11,10 +11,28 @@
     c16_unnest_both_cond   set_of([p, e], and_(c(p), e ⋈ k)) = restricted to parents with c AND elements with ⋈ k
     c16_unnest_elem_vs_parent  set_of([p, e], e ⋈ t₂(p)) = per parent, the elements that compare with ITS value of t₂
     c16_nonempty_singleton a non-iterable value counts as a single element (given `items v = [v]`)
-  Other combinations (disjunctions, overlapping collections) are covered by the correspondence check.  (`or_` over a repeated element inside ONE collection suppresses the
+  ANY condition and selection (set level, `Lemmas/Flat.lean`: the soundness / completeness lemmas of the L1
+  evaluator re-proved WITH flatten nodes - an assignment also gives every flatten node the element it stands
+  for, admissible when that element belongs to the collection its operand denotes under the same assignment):
+    c16_unnest_complete_general   no (parent, element, …) combination is lost: every admissible assignment that
+                                  satisfies the condition contributes its row
+    c16_unnest_sound_general      every row comes from one output binding and equals the selected values under
+                                  EVERY admissible assignment extending it, which satisfies the condition
+                                  (elements stay correlated with their parents: one binding carries both)
+    c16_unnest_rows_iff           THE EQUIVALENCE, for every condition whose disjunctions bind the same ids on
+                                  both sides (`Cond.uniformB`): a row is produced iff some admissible
+                                  assignment satisfies the condition and the row is the selected values under
+                                  it.  The forward witness is the output binding itself: `Lemmas/FlatAdm.lean`
+                                  proves that evaluation only ever produces admissible bindings (`Adm`:
+                                  variables hold members of their domains, flatten nodes hold elements of
+                                  what their operand denotes under the SAME binding) and that a true output
+                                  binds every id of a uniform condition.
+  Multiplicities of other combinations (disjunctions, overlapping collections) are covered by the correspondence check.  (`or_` over a repeated element inside ONE collection suppresses the
   duplicate: set equality only — measured, see DESIGN.)
 -/
 import EqlModel.Lemmas.Closed
+import EqlModel.Lemmas.Flat
+import EqlModel.Lemmas.FlatAdm
 
 namespace Eql
 variable {V : Type}
@@ -237,5 +255,111 @@ theorem c16_nonempty_singleton (p f : VarId) (t : Term V) (h : FlatWF p f t)
       rw [List.flatMap_cons, ih', ho]
       rfl
   exact key (D p) hitems
+
+/-! ### Any condition, any selection (set level) -/
+
+/-- **C16, completeness for every query with flatten nodes.**  Whatever the condition (conjunctions,
+    disjunctions, negations at the leaves, sub-queries, comparisons between elements, parents and other
+    variables) and whatever is selected: every assignment of the variables to members of their domains
+    and of the flatten nodes to ELEMENTS OF THEIR PARENT'S COLLECTION (`CondOk`, `TermsOk`) that satisfies
+    the condition contributes its row - no (parent, element) combination is lost. -/
+theorem c16_unnest_complete_general (q : Query V) (c : Cond V) (hq : q.cond = some c)
+    (hc : Cond.okF c = true) (hs : Terms.okF q.sel = true) (α : Asg V)
+    (hadm : CondOk W D α c) (hsel : TermsOk W D α q.sel) (hden : denote W α c = true) :
+    termsVal W α q.sel ∈ rows W D q := by
+  obtain ⟨p, hp, hpe⟩ := (cond_sound_complete_f W D c hc).2 [] α false (ext_nil α) hadm (Or.inr hden)
+  obtain ⟨s, hsm, hse⟩ := args_complete_f W D q.sel hs p.1 α hpe hsel
+  have := (args_sound_f W D q.sel hs p.1 s.1 s.2 hsm α hse).2
+  simp only [rows, hq, List.mem_flatMap, List.mem_map]
+  exact ⟨p, hp, s, hsm, this.symm⟩
+
+/-- **C16, soundness for every query with flatten nodes.**  Every row comes from ONE output binding - the
+    parent, the element of each flatten node and the other variables are bound together - and under every
+    admissible assignment that extends it the condition holds and the row is the selected values: elements
+    stay correlated with their parents, nothing is invented. -/
+theorem c16_unnest_sound_general (q : Query V) (c : Cond V) (hq : q.cond = some c)
+    (hc : Cond.okF c = true) (hs : Terms.okF q.sel = true) (r : List V) (hr : r ∈ rows W D q) :
+    ∃ β : Bnd V, ∀ α, CondOk W D α c → Ext β α → denote W α c = true ∧ r = termsVal W α q.sel := by
+  simp only [rows, hq, List.mem_flatMap, List.mem_map] at hr
+  obtain ⟨p, hp, s, hsm, rfl⟩ := hr
+  refine ⟨s.1, ?_⟩
+  intro α hadm hext
+  have h2 := args_sound_f W D q.sel hs p.1 s.1 s.2 hsm α hext
+  have hsc := (cond_sound_complete_f W D c hc).1 [] p.1 p.2 false hp
+  have hp2 : p.2 = false := hsc.1 rfl
+  have h1 := hsc.2 α hadm h2.1
+  exact ⟨by rw [h1.2, hp2]; rfl, h2.2.symm⟩
+
+/-- The element a flatten node is bound to IS an element of its operand's value (one output per element). -/
+theorem c16_flatten_binds_an_element (id : VarId) (t : Term V) (ht : (Term.flatten id t).okF = true)
+    (β β' : Bnd V) (e : V) (hfree : β.lookup id = none) (h : (β', e) ∈ evalTerm W D (.flatten id t) β) :
+    β'.lookup id = some e ∧ ∀ α, Ext β' α → e ∈ W.items (termVal W α t) := by
+  simp only [Term.okF, Bool.and_eq_true] at ht
+  simp only [evalTerm, hfree, List.mem_flatMap, List.mem_map] at h
+  obtain ⟨p, hp, e', he', heq⟩ := h
+  cases heq
+  refine ⟨lookup_cons_self _ _ _, ?_⟩
+  intro α hα
+  have hfr : p.1.lookup id = none := by
+    cases hp1 : p.1.lookup id with
+    | none => rfl
+    | some b =>
+      exfalso
+      have hb : bound p.1 id = true := by simp [bound, hp1]
+      rcases term_binds_f W D t ht.1 β p.1 p.2 hp id hb with h1 | h1
+      · simp [bound, hfree] at h1
+      · have := ht.2; simp at this; exact this h1
+  have hx := (ext_cons_fresh hfr).1 hα
+  rw [(term_sound_f W D t ht.1 β p.1 p.2 hp α hx.2).2]
+  exact he'
+
+/-- **C16 as an equivalence, for every query whose disjunctions bind the same ids on both sides.**
+    A row is produced IF AND ONLY IF some assignment gives every variable a member of its domain and every
+    flatten node an ELEMENT OF THE COLLECTION ITS OPERAND DENOTES UNDER THE SAME ASSIGNMENT (so elements
+    are paired with their own parent), satisfies the condition, and the row is the selected values under
+    it.  `Sh` says which ids are variables and which are flatten nodes (each with one operand).
+    The witness of the forward direction is the output binding itself (`Lemmas/FlatAdm.lean`). -/
+theorem c16_unnest_rows_iff [Inhabited V] (Sh : Shape V) (q : Query V) (c : Cond V) (hq : q.cond = some c)
+    (hc : Cond.okF c = true) (hs : Terms.okF q.sel = true) (hcs : Cond.shaped Sh c)
+    (hss : Terms.shaped Sh q.sel) (hu : Cond.uniformB c) (r : List V) :
+    r ∈ rows W D q ↔
+      ∃ α : Asg V, CondOk W D α c ∧ TermsOk W D α q.sel ∧ denote W α c = true ∧ r = termsVal W α q.sel := by
+  constructor
+  · intro hr
+    simp only [rows, hq, List.mem_flatMap, List.mem_map] at hr
+    obtain ⟨p, hp, s, hsm, rfl⟩ := hr
+    have hsc := (cond_sound_complete_f W D c hc).1 [] p.1 p.2 false hp
+    have hp2 : p.2 = false := hsc.1 rfl
+    have hadm1 : Adm W D Sh p.1 := cond_adm W D Sh c hc hcs [] p.1 p.2 false (adm_nil W D Sh) hp
+    have hadm2 : Adm W D Sh s.1 := args_adm W D Sh q.sel hs hss p.1 s.1 s.2 hadm1 hsm
+    have hsub := args_sub_f W D q.sel hs p.1 s.1 s.2 hsm
+    have hp' : (p.1, false) ∈ evalCond W D c [] false := by
+      have e : p = (p.1, false) := by rw [← hp2]
+      rw [← e]; exact hp
+    have hb1 : ∀ v ∈ c.binds, bound s.1 v = true := fun v hv =>
+      bound_of_sub hsub (true_output_total_f W D Sh c hc hcs hu [] p.1 false (adm_nil W D Sh)
+        hp' v hv)
+    have hb2 := args_covers_f W D Sh q.sel hs hss p.1 s.1 s.2 hadm1 hsm
+    have hext := ext_asgOf s.1
+    have hok := condOk_of_bound W D Sh c hcs s.1 hadm2 hb1 (asgOf s.1) hext
+    have h2 := args_sound_f W D q.sel hs p.1 s.1 s.2 hsm (asgOf s.1) hext
+    have h1 := hsc.2 (asgOf s.1) hok h2.1
+    exact ⟨asgOf s.1, hok, termsOk_of_bound W D Sh q.sel hss s.1 hadm2 hb2 (asgOf s.1) hext,
+      by rw [h1.2, hp2]; rfl, h2.2.symm⟩
+  · rintro ⟨α, hadm, hsel, hden, rfl⟩
+    exact c16_unnest_complete_general W D q c hq hc hs α hadm hsel hden
+
+/-- The hypotheses of `c16_unnest_rows_iff` are satisfiable:
+    `set_of([p, e], e == 3 or contains(e, p))` with `e = flatten(p.xs)`. -/
+example :
+    let e : Term Nat := .flatten 1 (.attr "xs" (.var 0))
+    let c : Cond Nat := .elseIf (.cmp .eq e (.lit 3)) (.pred false "contains" [e, .var 0])
+    let Sh : Shape Nat := fun id => if id = 1 then some (.attr "xs" (.var 0)) else none
+    Cond.okF c = true ∧ Terms.okF [.var 0, e] = true ∧ Cond.shaped Sh c ∧ Terms.shaped Sh [.var 0, e] ∧
+      Cond.uniformB c := by
+  refine ⟨by decide, by decide, ?_, ?_, ?_⟩
+  · simp [Cond.shaped, Terms.shaped, Term.shaped]
+  · simp [Terms.shaped, Term.shaped]
+  · simp [Cond.uniformB, Cond.binds, Terms.binds, Term.binds]
 
 end Eql
